@@ -129,12 +129,19 @@ def run_retry(binp, seed, tier, only=None):
     rc, rows, out = lc.run_json(cmd, timeout=1200)
     if rc != 0:
         raise RuntimeError("looph retry failed: " + out[-2000:])
-    return [r for r in rows if r.get("kind") == "retry"]
+    return norm([r for r in rows if r.get("kind") == "retry"])
+
+
+def norm(rows):
+    for r in rows:
+        if r.get("attempts") is None:
+            r["attempts"] = []
+    return rows
 
 
 def run_direct(binp, seed):
     rc, rows, out = lc.run_json([binp, "direct", str(seed)], timeout=600)
-    rows = [r for r in rows if r.get("kind") == "retry"]
+    rows = norm([r for r in rows if r.get("kind") == "retry"])
     if rc != 0:
         # the harness process died inside a direct call: that is an uncontained panic
         rows.append({"kind": "retry", "via": "direct", "mode": "direct", "cancel": "none", "crashed": True, "attempts": [], "wait_returned": True,
